@@ -48,28 +48,28 @@ def frame_len(it):
 
 def expand_offsets(beh_in, beh_out, max_bytes, pairs_upto, limit):
     """Every split offset (and every pair of offsets for very short streams) of the
-    distinct frame lists of the completed histories in beh_in."""
+    distinct frame lists of the histories in beh_in."""
     seen, n = set(), 0
     with open(beh_in) as f, open(beh_out, "w") as out:
         for line in f:
             h = json.loads(line)
-            if not h or h[-1][0] != "E":
-                continue
             frames = [it for it in h if it[0] == "S"]
             total = sum(frame_len(it) for it in frames)
             if total == 0 or total > max_bytes:
                 continue
-            key = json.dumps([h[1], frames])
+            key = json.dumps(frames)
             if key in seen:
                 continue
             seen.add(key)
-            base = [it for it in h if it[0] != "C"]
+            # the frame list only (a message left open is completed by the driver); deliveries are
+            # judged by the monitor, no model prediction is attached
+            base = h[:2] + frames + [["E"]]
             cutsets = [[]] + [[c] for c in range(1, total)]     # one chunk; every single cut
             if total <= pairs_upto:
                 cutsets += [[a, b] for a in range(1, total) for b in range(a + 1, total)]
             cutsets.append(list(range(1, total)))       # byte by byte
             for cs in cutsets:
-                out.write(json.dumps(base[:-1] + [["X", cs]] + base[-1:]) + "\n")
+                out.write(json.dumps(base[:-1] + [["X", cs]]) + "\n")
                 n += 1
             if n >= limit:
                 break
